@@ -248,3 +248,56 @@ func runTestModeProcDies(proto string) (impl, pred string) {
 	}
 	return impl, "ok"
 }
+
+// runTestModeAfterStop (C15): a test-mode plugin served by a separate process has STOPPED (the process is gone); reattaching
+// with its (test-mode) reattach configuration fails with the process-not-found error, like any other reattach to nothing.
+func runTestModeAfterStop(proto string) (impl, pred string) {
+	base := fmt.Sprintf("%s/c15-tm-%d-%s", os.Getenv("VERIF_WORK"), os.Getpid(), proto)
+	os.MkdirAll(base, 0o755)
+	defer os.RemoveAll(base)
+	tp, err := startTestServerProc(proto, base)
+	if err != nil {
+		return "setup-error", "FAIL:setup-testserver"
+	}
+	rc := tp.rc
+	mk := func() *plugin.Client {
+		return plugin.NewClient(&plugin.ClientConfig{
+			HandshakeConfig:  kitHandshake(),
+			Plugins:          kitHostSets(map[int]string{3: proto}, nil, nil)[3],
+			AllowedProtocols: []plugin.Protocol{plugin.ProtocolNetRPC, plugin.ProtocolGRPC},
+			Reattach:         rc,
+			Logger:           nullLogger(),
+		})
+	}
+	// while it is up, reattaching works (and Kill leaves it running)
+	c1 := mk()
+	if _, err := c1.Start(); err != nil {
+		tp.stop()
+		return "setup-error", "FAIL:setup-live-reattach"
+	}
+	withTimeout(6*time.Second, func() error { c1.Kill(); return nil })
+	tp.stop()
+	waitDead(rc.Pid, 3*time.Second)
+	// (the main thread of a killed multi-threaded process can be a zombie while its other threads, and with them its
+	// descriptors, are still going away: wait until nothing accepts on the address any more)
+	for dl := time.Now().Add(3 * time.Second); time.Now().Before(dl); time.Sleep(20 * time.Millisecond) {
+		cn, derr := net.Dial(rc.Addr.Network(), rc.Addr.String())
+		if derr != nil {
+			break
+		}
+		cn.Close()
+	}
+	c2 := mk()
+	var serr error
+	_, hung, pp := withTimeout(10*time.Second, func() error { _, serr = c2.Start(); return nil })
+	defer withTimeout(6*time.Second, func() error { c2.Kill(); return nil })
+	switch {
+	case hung || pp != nil:
+		return "start-hung", "FAIL:start-hung"
+	case serr == nil:
+		return "start=ok", "FAIL:reattached-to-a-stopped-test-mode-plugin"
+	case serr.Error() != "Reattachment process not found":
+		return "start=err:" + strings.ReplaceAll(serr.Error(), " ", "_"), "FAIL:wrong-error-for-dead-target"
+	}
+	return "start=notfound", "ok"
+}
